@@ -17,7 +17,7 @@ import (
 
 // Fail is a coded failure predicate on the element
 type Fail struct {
-	Kind string `json:"kind"` // none | modeq | in
+	Kind string `json:"kind"` // none | modeq | in | ge
 	M    int    `json:"m,omitempty"`
 	R    int    `json:"r,omitempty"`
 	Xs   []int  `json:"xs,omitempty"`
@@ -33,6 +33,8 @@ func (f Fail) fails(x int) bool {
 				return true
 			}
 		}
+	case "ge":
+		return x >= f.M // fails for ever from some point on (an exhausted source)
 	}
 	return false
 }
@@ -86,6 +88,7 @@ type Stage struct {
 	Gate  bool   `json:"gate,omitempty"`
 	Inner *Stage `json:"inner,omitempty"` // fork
 	Xs    []int  `json:"xs,omitempty"`    // seq
+	Slow  int    `json:"-"`               // free-running runs only: the user function takes this many microseconds
 
 	exx chan error // stderr: the error channel the driver feeds instead of input 0
 }
@@ -167,12 +170,16 @@ func (c *calls) parkedNow() []int {
 
 // an output as the driver sees it: non-blocking receive
 type output struct {
-	try func() (v int, closed bool, got bool)
-	cap int
+	try  func() (v int, closed bool, got bool)
+	wait func() (v int, closed bool) // blocking receive: the consumer is parked in `<-ch` when the stage gets to its send
+	cap  int
 }
 
 func outInt(ch <-chan int) output {
-	return output{cap: cap(ch), try: func() (int, bool, bool) {
+	return output{cap: cap(ch), wait: func() (int, bool) {
+		v, ok := <-ch
+		return v, !ok
+	}, try: func() (int, bool, bool) {
 		select {
 		case v, ok := <-ch:
 			if !ok {
@@ -186,7 +193,16 @@ func outInt(ch <-chan int) output {
 }
 
 func outErr(ch <-chan error) output {
-	return output{cap: cap(ch), try: func() (int, bool, bool) {
+	return output{cap: cap(ch), wait: func() (int, bool) {
+		e, ok := <-ch
+		if !ok {
+			return 0, true
+		}
+		if ev, isv := e.(errVal); isv {
+			return int(ev), false
+		}
+		return -1, false
+	}, try: func() (int, bool, bool) {
 		select {
 		case e, ok := <-ch:
 			if !ok {
@@ -219,6 +235,9 @@ func outUnit(ch <-chan struct{}) output {
 func (s *Stage) eitherE(c *calls) func(int) (int, error) {
 	return func(x int) (int, error) {
 		c.enter(x)
+		if s.Slow > 0 {
+			time.Sleep(time.Duration(s.Slow) * time.Microsecond)
+		}
 		if s.Fail != nil && s.Fail.fails(x) {
 			return 0, errVal(1000 + x)
 		}
@@ -295,7 +314,15 @@ func build(ctx context.Context, s *Stage, ins []chan int, c *calls) []output {
 	case "takewhile":
 		return []output{outInt(pipe.TakeWhile(ctx, roIns[0], pipe.Lift(s.predE(c))))}
 	case "foreach":
-		return []output{outUnit(pipe.ForEach(ctx, roIns[0], pipe.Lift(func(x int) (int, error) { c.enter(x); return x, nil })))}
+		// ForEach ignores what its function returns - also an error, under Lift as under Try
+		fe := func(x int) (int, error) {
+			c.enter(x)
+			if s.Fail != nil && s.Fail.fails(x) {
+				return 0, errVal(1000 + x)
+			}
+			return x, nil
+		}
+		return []output{outUnit(pipe.ForEach(ctx, roIns[0], lift(fe)))}
 	case "void":
 		return []output{outUnit(pipe.Void(ctx, roIns[0]))}
 	case "fold":
@@ -373,7 +400,17 @@ func build(ctx context.Context, s *Stage, ins []chan int, c *calls) []output {
 			l, r := fork.Partition(ctx, s.Par, roIns[0], fork.Lift(in.predE(c)))
 			return []output{outInt(l), outInt(r)}
 		case "foreach":
-			return []output{outUnit(fork.ForEach(ctx, s.Par, roIns[0], fork.Lift(func(x int) (int, error) { c.enter(x); return x, nil })))}
+			fe := func(x int) (int, error) {
+				c.enter(x)
+				if in.Fail != nil && in.Fail.fails(x) {
+					return 0, errVal(1000 + x)
+				}
+				return x, nil
+			}
+			if in.Try {
+				return []output{outUnit(fork.ForEach(ctx, s.Par, roIns[0], fork.Try(fe)))}
+			}
+			return []output{outUnit(fork.ForEach(ctx, s.Par, roIns[0], fork.Lift(fe)))}
 		case "void":
 			return []output{outUnit(fork.Void(ctx, s.Par, roIns[0]))}
 		}
